@@ -7,7 +7,7 @@
    any pattern, including empty-value and negative matchers. *)
 From Coq Require Import ZArith NArith List Bool.
 Import ListNotations.
-From Verif Require Import Lib.Corr Gen.C05 Model.C05 Proofs.C05.
+From Verif Require Import Lib.Corr Lib.Proxy_Order Gen.C05 Model.C05 Proofs.C05.
 Open Scope Z_scope.
 
 (* Skipped for its time range => none of the store's samples (all inside the
@@ -63,6 +63,26 @@ Theorem C05_pred : forall sel ms dbg son mint maxt stores o_kept o_lsets,
   end.
 Proof. exact pred_ok_model. Qed.
 Print Assumptions C05_pred.
+
+(* The extra matchers the proxy sends for the label sets kept by the TSDB selector
+   (MatchersForLabelSets: per label name the alternation of its values, plus "^$" when a set
+   lacks the name). Sound when all kept sets have the same label names ... *)
+Theorem C05_selector_matchers_sound_homogeneous : forall lsets,
+  (forall l n, In l lsets -> In n (sel_names lsets) -> lhas l n = true) ->
+  forall s ext n, In ext lsets -> extends s ext -> In n (sel_names lsets) ->
+  (forall v, In v (sel_alts n lsets) -> str_eqb v RE_EMPTY = false) ->
+  alt_sem (sel_alts n lsets) (lget s n) = true.
+Proof. exact selector_sound_homogeneous. Qed.
+Print Assumptions C05_selector_matchers_sound_homogeneous.
+
+(* ... and NOT in general (known finding selector-matcher-rejects-own-label): with kept sets
+   {a="1"} and {b="2"} the matchers are a=~"1|^$", b=~"2|^$"; a series {a="1", b="3"} of the
+   first set (b is its own label) is rejected by the second matcher. *)
+Theorem C05_selector_matchers_refuted :
+  exists lsets s ext n, In ext lsets /\ extends_b s ext = true /\ In n (sel_names lsets)
+    /\ alt_sem (sel_alts n lsets) (lget s n) = false.
+Proof. exact selector_refuted. Qed.
+Print Assumptions C05_selector_matchers_refuted.
 
 (* Non-vacuity: a store with external labels {a="1"}, range [10,20]; the request
    a!="1" over [0,30] prunes it for its labels, a="1" over [21,30] for its time range,
